@@ -2,13 +2,13 @@
 PROPS["C03"] = dict(
     props_file="Properties/C03.v",
     harnesses=[
-        dict(cmd="build", mod="root", model="Model.EsgzWriter", quick=150, thorough=12000, shard=50, coq_jobs=8,
+        dict(cmd="build", mod="root", model="Model.EsgzBuild", quick=150, thorough=4000, shard=50, coq_jobs=8, race=150,
              preamble="Open Scope N_scope.",
              require=["mode.build", "mode.writer", "mode.lossless", "fmt.gzip", "fmt.zstd", "fmt.ext", "incomp.gzip", "incomp.zstd",
                       "minchunk.on", "toc.inner", "toc.chunk", "build.parallel", "case.chunked", "result.error", "result.ok",
                       "lossless.checked", "writer.multicall", "writer.multicall.minchunk",
-                      "dup.respelled.build", "dup.respelled.writer", "dup.respelled.triple", "dup.respelled.mixedtype", "prio.respelled"]),
-        dict(cmd="buildfooter", mod="root", model="Model.EsgzFooter", quick=200, thorough=20000, shard=100, coq_jobs=8,
+                      "dup.respelled.build", "dup.respelled.writer", "dup.respelled.triple", "dup.respelled.mixedtype", "prio.respelled", "prio.general", "open.checked"]),
+        dict(cmd="buildfooter", mod="root", model="Model.EsgzFooter", quick=200, thorough=6000, shard=100, coq_jobs=8,
              preamble="Open Scope N_scope.",
              require=["fmt.gzip", "fmt.legacy", "fmt.zstd", "fmt.ext", "kind.enc", "kind.parse", "parse.ok", "parse.err"]),
     ],
@@ -24,14 +24,16 @@ PROPS["C03"] = dict(
         "the real writer; the theorems quantify over all of them",
         "SHA-256 is not modelled: digests are recomputed on the implementation's output by the harness oracle; the model proves WHICH bytes are hashed",
         "goroutine plumbing of Build (WaitGroup, pipes, temp files) is modelled by its data flow only: part i is written by its own fresh Writer",
-        "prioritized-file ordering (sortEntries / moveRec) is C14's subject: the model starts from the entry order handed to the writers",
+        "prioritized-file ordering (sortEntries / moveRec) is own-C14's model Model/Sort.v (with its proofs), composed here with the writers: "
+        "Build cases hand the RAW input tar (names, hardlink targets, prioritized list) to the composed model Model/EsgzBuild.v",
     ],
     level_text="Coq theorems for ALL inputs / oracle values: (1) the four footer layouts have exactly the regenerated sizes and parse(encode(off)) = off "
                "for every 0 <= off < 2^63 (hex16 and little-endian codec proofs); (2) divideEntries is an order-preserving partition for every worker "
                "count; (3) the decompressed payload of Writer and of Build (any worker count) is exactly the serialisation of the entries handed in "
-               "(TOC-named entries dropped), lossless adds the raw trailer; (4) every offset-carrying TOC entry points to a member boundary and "
+               "(TOC-named entries dropped), lossless adds the raw trailer; end to end from the raw tar: Build = [prioritized group] ++ landmark ++ [rest] "
+               "with group ++ rest a permutation of importTar's last-duplicate-wins selection (composition with C14's sortEntries theorems); (4) every offset-carrying TOC entry points to a member boundary and "
                "innerOffset/chunkOffset/size select the same bytes of the file, also after closeWithCombine rebasing; (5) the bytes fed to DiffID are "
-               "the decompressed payload and the uncompressed counter is its length. The model is run against estargz on random archives every run, "
+               "the decompressed payload and the uncompressed counter is its length (theorem). The model is run against estargz on random archives every run, "
                "and an independent reader (documented rules only) re-checks every clause on the real output.",
     level_note="Model (coq/Model/EsgzWriter.v, EsgzFooter.v) is hand-written; codecs (gzip/zstd/tar/JSON/SHA-256) are outside the model and are "
                "exercised by the harness oracle only.",
